@@ -399,7 +399,7 @@ OnDone(s, e) ==
     ELSE
     LET s1 == [s EXCEPT !.phase = "done"]
         faults == Faults(s.cur.ty, s.cur.val, <<>>, s.cur.pk, s.fnf)
-    IN IF s.cur.allc
+    IN IF s.cur.allc /\ FactsUnambiguous(s.cur.val, s.fnf)
        THEN (IF SameBag(s.reps \o s.waived, faults) THEN Seen(s1, {"C02", "C08", "C09", "C10"})
              ELSE LET got == s.reps \o s.waived
                       diff == {got[j] : j \in {k \in 1..Len(got) : Count(got, got[k]) # Count(faults, got[k])}}
